@@ -167,6 +167,73 @@ mod imp {
         let _ = (keys::HS_SECRET, drive::fmt_of(fmt), Out::<()>::Ok(()));
     }
 
+    /// Queues that repeat a value (the property quantifies over all queues that are long enough): kind 0 =
+    /// one constant salt, kind 1 = two salts alternating. Issuance must stay reproducible and consume one
+    /// entry per disclosure; unless two disclosures come out textually identical (same salt, same name, same
+    /// value: then their digests coincide and no verifier may accept), holder and verifier must recover the claims.
+    pub fn one_repeating(u: &Value, strat: &Strat, fmt: Fmt, kind: usize, l: &mut Local) {
+        l.evals += 1;
+        let Ok(h) = hidden(u, strat) else { return };
+        let k = h.len();
+        let mk = |class: &str, site: &str, detail: String| {
+            let mut case = pipeline::case_json("c16", u, strat, &Cfg { fmt, ..Cfg::CHEAP }, None);
+            case["repeating_queue"] = json!(kind);
+            Violation::new("issue", class, site, "repeating_salt_queue", detail, case)
+        };
+        let q: Vec<String> = (0..k + 2).map(|i| if kind == 0 || i % 2 == 0 { "c2FtZS1zYWx0LXNhbWUtc2FsdA".to_string() } else { "b3RoZXItc2FsdC1vdGhlci1zYQ".to_string() }).collect();
+        let cfg = Cfg { fmt, alg: Alg::HS256, decoys: false, hk: Hk::None };
+        fill(&q);
+        let out1 = pipeline::issue_raw(u, strat, &cfg);
+        let rem = remaining();
+        fill(&q);
+        let out2 = pipeline::issue_raw(u, strat, &cfg);
+        if out1 != out2 {
+            l.violation(mk("not_reproducible", "c16_hs256_bytes_differ", String::new()));
+        }
+        if !out1.is_ok() {
+            l.violation(mk(if out1.is_panic() { "panic" } else { "err_where_ok_required" }, "c16_issue_with_repeating_queue", out1.describe()));
+            return;
+        }
+        // same salt + same name + same value = the same disclosure text twice: the digests coincide, the structure
+        // oracle and every verifier rightly object; only reproducibility is asserted for such a queue
+        if let Some(p) = out1.as_ok().and_then(|s| crate::codec::parse(s, fmt)) {
+            let mut texts = p.disclosures.clone();
+            texts.sort();
+            let n0 = texts.len();
+            texts.dedup();
+            if texts.len() != n0 {
+                l.outcome("identical_disclosures_under_repeated_salt:only_reproducibility_asserted");
+                return;
+            }
+        }
+        let (cred, bad) = pipeline::c05_oracle(u, strat, &cfg, &out1);
+        for (class, site, detail) in &bad {
+            // one fresh salt per disclosure is a property of the default build, not of a queue that repeats
+            if site == "c05_salt_repeated_within_credential" {
+                continue;
+            }
+            l.violation(mk(class, &format!("mock:{site}"), detail.clone()));
+        }
+        let Some(cred) = cred else { return };
+        let mut used = cred.an.salts.clone();
+        used.sort();
+        let mut want = q[..k].to_vec();
+        want.sort();
+        if used != want || rem != q[k..] {
+            l.violation(mk("wrong_salts", "c16_salts_not_queue_prefix", format!("salts in output {:?}, left in SALTS {:?}, queue {:?}", cred.an.salts, rem, q)));
+        }
+        for (si, sel) in [gen::select_all(u), serde_json::Map::new()].iter().enumerate() {
+            let mut l2 = Local::default();
+            pipeline::run_selection(&cred, sel, pipeline::Checks { c01: true, c06: true, ..Default::default() }, "C16", &mut l2);
+            for v in l2.violations() {
+                l.violation(mk(&v.class, &format!("mock:repeating_queue:roundtrip(select={}):{}:{}", if si == 0 { "all" } else { "none" }, v.stage, v.site), v.detail));
+            }
+        }
+        if k > 1 {
+            l.nontrivial += 1;
+        }
+    }
+
     fn items(tier: &str) -> Vec<(Value, Strat)> {
         let quick = tier == "quick";
         let mut out = vec![];
@@ -217,13 +284,16 @@ mod imp {
                 for slack in [0usize, 1, 5] {
                     one(u, s, fmt, slack, &mut l);
                 }
+                for kind in [0usize, 1] {
+                    one_repeating(u, s, fmt, kind, &mut l);
+                }
             }
         }
         worker::emit_result(&l);
     }
 
     pub fn run(rep: &Report) {
-        rep.set_rule("cases = (claim tree, strategy, format, queue slack r in {0,1,5}) in the mock_salts build; SALTS is process-global so each worker process runs one case at a time; non-trivial = at least one disclosure (k >= 1 salts consumed); distinct by construction");
+        rep.set_rule("cases = (claim tree, strategy, format, queue slack r in {0,1,5}, plus a constant and an alternating queue) in the mock_salts build; SALTS is process-global so each worker process runs one case at a time; non-trivial = at least one disclosure (k >= 1 salts consumed); distinct by construction");
         rep.assume("built with sd-jwt-rs feature mock_salts; says nothing about the default build");
         rep.assume("salt queues hold distinct base64url strings at least as long as the number of disclosures");
         let n = std::thread::available_parallelism().map(|x| x.get()).unwrap_or(8);
@@ -241,7 +311,11 @@ mod imp {
     pub fn replay(case: &Value) -> Vec<Violation> {
         let mut l = Local::default();
         let cfg = Cfg::from_json(&case["cfg"]);
-        one(&case["claims"], &Strat::from_json(&case["strategy"]), cfg.fmt, case["slack"].as_u64().unwrap_or(0) as usize, &mut l);
+        if let Some(kind) = case["repeating_queue"].as_u64() {
+            one_repeating(&case["claims"], &Strat::from_json(&case["strategy"]), cfg.fmt, kind as usize, &mut l);
+        } else {
+            one(&case["claims"], &Strat::from_json(&case["strategy"]), cfg.fmt, case["slack"].as_u64().unwrap_or(0) as usize, &mut l);
+        }
         l.violations()
     }
 }
